@@ -294,6 +294,8 @@ func runCase(c kase) string {
 		return txRootCase(c.N, c.W)
 	case "inj":
 		return injPair(c.A, c.B)
+	case "duptail":
+		return dupTailCase(c.N, c.I)
 	}
 	return "unknown case kind"
 }
@@ -584,6 +586,24 @@ func injPair(a, b []byte) string {
 	return ""
 }
 
+// dupTailCase: n distinct leaves followed by a copy of the last t of them.
+func dupTailCase(n, t int) string {
+	l := make([][]byte, 0, n+t)
+	for i := 0; i < n; i++ {
+		l = append(l, leaf(2000+i))
+	}
+	long := append(append([][]byte{}, l...), l[n-t:]...)
+	if !bytes.Equal(merkle.GetMerkleRoot(cp(l)), merkle.GetMerkleRoot(cp(long))) {
+		return ""
+	}
+	r.Count("dup_tail_collisions", 1)
+	r.Seen("dup_tail_lengths", fmt.Sprint(t))
+	if _, mut, _ := merkle.Computation(cp(long), 1, 0); !mut {
+		return fmt.Sprintf("%d distinct leaves followed by a copy of the last %d have the root of the %d leaves and are not flagged mutated", n, t, n)
+	}
+	return ""
+}
+
 func partInj(maxLen int) {
 	byRoot := map[string][][]byte{}
 	var rec func(p []byte)
@@ -620,6 +640,17 @@ func partInj(maxLen int) {
 				if f := injPair(ls[i], ls[j]); f != "" {
 					violate("inj:"+vx.Norm(f, 70), f, kase{Kind: "inj", A: ls[i], B: ls[j]})
 				}
+			}
+		}
+	}
+	// duplicated tails of every power-of-two length on lists of distinct leaves: whenever appending the last
+	// 2^k leaves again leaves the root unchanged, the longer list must be flagged mutated
+	for n := 1; n <= 200; n++ {
+		for t := 1; t <= n; t *= 2 {
+			r.Count("evaluations", 1)
+			r.Count("dup_tail_cases", 1)
+			if f := dupTailCase(n, t); f != "" {
+				violate(fmt.Sprintf("inj:duplicated-tail-of-%d-leaves-not-flagged-mutated", t), f, kase{Kind: "duptail", N: n, I: t})
 			}
 		}
 	}
